@@ -332,6 +332,49 @@ func GenCueImportsWorkload(r *Rand) *Workload {
 	return w
 }
 
+// GenFactoriesWorkload: builders with factories in three packages, for the
+// languages whose jennies group factories by package (Java, PHP).
+func GenFactoriesWorkload(r *Rand) *Workload {
+	w := &Workload{Files: map[string]string{}, Types: true, Builders: true, APIRef: r.Bool()}
+	str := func() *WType { return &WType{K: "string"} }
+	for _, pkg := range Shuffled(r, []string{"facta", "factb", "factc"}) {
+		p := &WPackage{Name: pkg, Objects: []WObject{
+			{Name: "Thing", T: &WType{K: "struct", Fields: []WField{{Name: "title", T: str(), Required: true}, {Name: "unit", T: str()}}}},
+			{Name: "Other", T: &WType{K: "struct", Fields: []WField{{Name: "name", T: str()}, {Name: "thing", T: &WType{K: "ref", Ref: "Thing"}}}}},
+		}}
+		if r.Bool() {
+			w.Files["in/"+pkg+"/schema.json"] = p.RenderJSONSchema()
+			w.Inputs = append(w.Inputs, InputSpec{Kind: "jsonschema", Path: "in/" + pkg + "/schema.json", Package: pkg})
+		} else {
+			w.Files["in/"+pkg+"/openapi.json"] = p.RenderOpenAPI()
+			w.Inputs = append(w.Inputs, InputSpec{Kind: "openapi", Path: "in/" + pkg + "/openapi.json", Package: pkg})
+		}
+		var veneers strings.Builder
+		fmt.Fprintf(&veneers, "language: all\npackage: %s\nbuilders:\n", pkg)
+		for _, b := range Shuffled(r, []string{"Thing", "Other"}) {
+			opt := "title"
+			if b == "Other" {
+				opt = "name"
+			}
+			fmt.Fprintf(&veneers, "  - add_factory:\n      by_object: %s\n      factory:\n        name: %sPreset\n        arguments:\n          - name: preset\n            type: {kind: scalar, scalar: {scalar_kind: string}}\n        options:\n          - name: %s\n            parameters:\n              - argument:\n                  name: preset\n                  type: {kind: scalar, scalar: {scalar_kind: string}}\n", b, b, opt)
+		}
+		w.Files["cfg/veneers/"+pkg+".yaml"] = veneers.String()
+	}
+	w.VeneerDirs = []string{"cfg/veneers"}
+	w.Languages = GenLanguages(r, 1, 2)
+	have := map[string]bool{}
+	for _, l := range w.Languages {
+		have[l.Name] = true
+	}
+	for _, l := range []string{"java", "php"} {
+		if !have[l] && r.Chance(2, 3) {
+			w.Languages = append(w.Languages, LangSpec{Name: l, Flags: map[string]string{}})
+		}
+	}
+	w.Name = "factories -> " + strings.Join(w.LangNames(), ",")
+	return w
+}
+
 // GenMergeWorkload: a struct whose field refers to another struct, and a
 // merge_into veneer whose rename_options interact (a chain, and keys differing
 // by case): the shape that puts >= 2 entries in the rename map.
